@@ -246,8 +246,19 @@ func (x *Exec) execAlloc(st *State, in *ssa.Alloc) {
 		x.setReg(in, scalar(r, in.Type()))
 		return
 	}
-	if _, isArr := et.Underlying().(*types.Array); isArr && k != TScalar || (isArr && !isByteArr(et)) {
-		// arrays (varargs): opaque cell
+	if at, isArr := et.Underlying().(*types.Array); isArr && !isByteArr(et) {
+		// fixed-size arrays (varargs buffers, small literals): a fresh backing array of known length
+		if ek, _ := classify(at.Elem()); ek == TScalar || ek == TStruct || ek == TSlice || ek == TFloat {
+			r := x.newRef(st, "array")
+			for _, lf := range leavesOf(at.Elem()) {
+				key := sliceKey(at.Elem(), lf.Path)
+				h := x.heapGet(st, key, arr(SInt, arr(SInt, lf.S)))
+				x.heapSet(st, key, tStore(h, r, constArr(arr(SInt, lf.S), zeroTerm(lf.S))))
+			}
+			st.cells[in] = &Val{K: VSlice, Typ: types.NewSlice(at.Elem()), F: []*Val{scalar(r, nil), scalar(intLit(0), nil), scalar(intLit(at.Len()), nil)}}
+			x.setReg(in, &Val{K: VPath, Path: &Path{Cell: in, T: et}})
+			return
+		}
 		st.cells[in] = &Val{K: VScalar, T: x.D.fresh("array", SAny), Typ: et}
 		x.setReg(in, &Val{K: VPath, Path: &Path{Cell: in, T: et}})
 		return
@@ -499,6 +510,16 @@ func (x *Exec) execIndexAddr(st *State, in *ssa.IndexAddr) {
 		x.assume(st, tAnd(tCmp(">=", idx, intLit(0)), tCmp("<", idx, base.F[2].T)))
 		x.setReg(in, &Val{K: VPath, Path: &Path{Arr: base.F[0].T, Idx: tArith("+", base.F[1].T, idx), ElemT: et, T: et}})
 	case VPath:
+		if base.Path.Cell != nil && len(base.Path.Sel) == 0 {
+			if cur, ok := st.cells[base.Path.Cell]; ok && cur.K == VSlice {
+				et := cur.Typ.Underlying().(*types.Slice).Elem()
+				if x.noPanic() {
+					x.oblige(st, "nopanic", "index", tAnd(tCmp(">=", idx, intLit(0)), tCmp("<", idx, cur.F[2].T)), in.Pos(), "index within array bounds", nil)
+				}
+				x.setReg(in, &Val{K: VPath, Path: &Path{Arr: cur.F[0].T, Idx: tArith("+", cur.F[1].T, idx), ElemT: et, T: et}})
+				return
+			}
+		}
 		// pointer to array (varargs buffer): opaque element
 		p := *base.Path
 		p.Opaque = true
@@ -650,6 +671,18 @@ func (x *Exec) execSlice(st *State, in *ssa.Slice) {
 		}
 		x.setReg(in, x.havocVal(in.Type(), "slice"))
 	case VPath:
+		if base.Path.Cell != nil && len(base.Path.Sel) == 0 {
+			if cur, ok := st.cells[base.Path.Cell]; ok && cur.K == VSlice {
+				if lo == nil {
+					lo = intLit(0)
+				}
+				if hi == nil {
+					hi = cur.F[2].T
+				}
+				x.setReg(in, &Val{K: VSlice, Typ: in.Type(), F: []*Val{cur.F[0], scalar(tArith("+", cur.F[1].T, lo), nil), scalar(tArith("-", hi, lo), nil)}})
+				return
+			}
+		}
 		// slicing a pointer-to-array (varargs): opaque fresh slice
 		v := x.havocVal(in.Type(), "varargs")
 		if v.K == VSlice {
